@@ -75,7 +75,7 @@ async function op_read(req) {
     let hs = new HandStream();
     let it = new rbql_csv.CSVRecordIterator(hs, null, req.encoding, req.dlm, req.policy, !!req.header, req.comment || null);
     let chunks = req.chunks.map(c => Buffer.from(c));
-    let feeder = (async () => {
+    let feeder = req.alternate ? null : (async () => {
         // producer: one chunk per macrotask turn; in 'consume_first' mode the consumer's get_record is already pending
         if (req.consume_first)
             await tick();
@@ -86,6 +86,38 @@ async function op_read(req) {
         }
         hs.push(null);
     })();
+    if (req.alternate) {
+        // the consumer takes at most `alternate` records after each delivered chunk (records pile up in the reader's queue and are
+        // taken while later chunks are still arriving), then drains
+        let got = [], failure = null, pending = null, eof = false;
+        let arm = () => { pending = it.get_record().then(r => { pending = null; if (r === null) eof = true; else got.push(r); }, e => { pending = null; failure = e; }); };
+        try {
+            await it.start();
+            for (let c of chunks) {
+                hs.push(c);
+                await tick();
+                for (let k = 0; k < req.alternate && !eof && !failure; k++) {
+                    if (!pending) arm();
+                    await tick();
+                    if (pending) break;
+                }
+            }
+            hs.push(null);
+            await tick();
+            while (!eof && !failure) {
+                if (!pending) arm();
+                await pending;
+            }
+            if (failure) throw failure;
+            result.records = got;
+            result.warnings = it.get_warnings();
+        } catch (e) {
+            result.error = err_info(e);
+            try { result.warnings = it.get_warnings(); } catch (e2) {}
+        }
+        hs.destroy();
+        return result;
+    }
     try {
         if (!req.consume_first) {
             if (req.producer_first_all) {
